@@ -60,6 +60,10 @@ var rets = []retKind{
 	{"liste", "eine Zahlen Liste", "liste", 0, false},
 }
 
+// retLoop: a Wahrheitswert result used as the condition of a Solange loop (the call is evaluated
+// once per test of the condition)
+var retLoop = retKind{"boolloop", "einen Wahrheitswert", "ddpbool", 1, false}
+
 type sig struct {
 	params []kind
 	ret    retKind
@@ -194,7 +198,10 @@ func (s sig) sources() (string, string, []string) {
 			refObs = append(refObs, fmt.Sprintf("(p%dv als Zahl)", i))
 		}
 	}
-	if s.ret.key == "nichts" || len(refObs) > 0 {
+	if s.ret.key == "boolloop" {
+		body += "Die Zahl n ist 0.\n\tSolange (" + invoke + ") und (n kleiner als 2 ist), mache:\n\t\tErhöhe n um 1.\n\tGib n zurück."
+		wret = "eine Zahl"
+	} else if s.ret.key == "nichts" || len(refObs) > 0 {
 		// observe the Referenz variables after the call (their sum), the result itself is dropped
 		if s.ret.key == "nichts" {
 			body += invoke + ".\n\t"
@@ -266,7 +273,7 @@ func Run(r *core.Report, env *build.Env) {
 		r.EngineFailf("list defs: %v", err)
 		return
 	}
-	r.Bounds["signatures"] = "every single-parameter signature with every return kind, every ordered pair of parameter kinds (return Zahl), selected signatures of arity 0, 3 and 4 (thorough: arity up to 6)"
+	r.Bounds["signatures"] = "every single-parameter signature with every return kind, three signatures called inside the condition of a Solange loop (evaluated up to three times), every ordered pair of parameter kinds (return Zahl), selected signatures of arity 0, 3 and 4 (thorough: arity up to 6)"
 	r.Bounds["values"] = "scalar arguments fully symbolic; Text arguments of two characters (first symbolic ASCII), Zahlen Listen of two elements (first symbolic)"
 	r.Assumptions = append(r.Assumptions, "the C side is compiled by clang-14 against the real headers lib/runtime/include/DDP (the x86-64 parameter lowering is clang's)", "realloc never fails")
 	r.Outside = append(r.Outside, "the machine-level calling convention beyond what LLVM IR shows (e.g. zeroext of i1)", "gcc vs clang struct layout", "calls from an importing module", "Kombination and Variable parameters")
@@ -286,6 +293,7 @@ func Run(r *core.Report, env *build.Env) {
 	for _, k := range kinds {
 		km[k.key] = k
 	}
+	sigs = append(sigs, sig{[]kind{km["text"]}, retLoop}, sig{[]kind{km["liste"]}, retLoop}, sig{[]kind{km["text"], km["zahl"]}, retLoop})
 	mix := func(ret string, keys ...string) sig {
 		var ps []kind
 		for _, k := range keys {
@@ -413,6 +421,12 @@ func (x *ctx) cell(s sig, opt int) {
 			continue
 		}
 		nret++
+		if s.ret.key == "boolloop" {
+			// only the ownership obligation: whatever the number of evaluations of the condition,
+			// every argument copy has been released when the wrapper returns
+			x.auditLive(h, st, nil)
+			continue
+		}
 		glob := func(name string, off int64, n int) *smt.Expr {
 			o := h.Ex.GlobalObject(st, name)
 			if o == nil {
